@@ -52,10 +52,12 @@ TRUSTED_BASE = [
     "exact rationals stand for Python floats (generated coordinates are dyadic, so the float arithmetic is exact)",
 ]
 ASSUMPTIONS = [
-    "Kids entries are indirect references (or integers naming existing objects); Type values are direct names",
+    "Kids entries are indirect references (or integers naming existing objects); Type values are direct names; "
+    "a dictionary written directly into a Kids array (handled by the code: Page yielded with pageid None, Pages "
+    "ignored) is outside the model's value space and not generated",
     "the catalog itself carries no inheritable attribute (property domain: trees of Pages/Page nodes); "
     "catalog-level attributes are generated for the model/implementation tie only",
-    "Rotate values are integers; boxes are arrays of numbers (other types: tie only)",
+    "Rotate values are integers; boxes are arrays of numbers (other types get the default box / 0: tie only)",
     "empty page_numbers means all pages (Python truthiness); maxpages is a natural number, 0 = no limit",
     "tree depth stays below Python's recursion limit (generated depth <= 25 quick / <= 200 thorough)",
 ]
@@ -79,7 +81,7 @@ STATEMENT_STATUS: Dict[str, str] = {
     "C04_ctm_corners": "proved: corners move clockwise by Rotate/90 places",
     "C04_render": "proved: harness observation (bbox + glyph matrix) = specification",
     "C04_select": "proved: maxpages natural (0 = no limit), empty page_numbers = all",
-    "C04_select_pinned_cex": "proved counter-example for the pinned loop (page_numbers={5}, maxpages=2); fixed in 73f827a",
+    "C04_select_pinned_cex": "proved counter-example for the pinned loop (page_numbers={5}, maxpages=2); fixed in 262fbfd",
 }
 
 CLASSIFIERS = {
@@ -319,10 +321,10 @@ class SpecError(Exception):
 
 
 def resolve(objs, v, depth=0):
-    """resolve1: follow references (a missing object is null)."""
+    """resolve1: follow references (a missing object is null, and so is a circular chain)."""
     while is_atom(v) and v[0] == "R":
         if depth > 64:
-            raise SpecError("reference cycle")
+            return ["null"]
         depth += 1
         v = objs.get(int(v[1]), ["null"])
         if v[0] == "D":
@@ -330,23 +332,25 @@ def resolve(objs, v, depth=0):
     return v
 
 
-def num_of(objs, a) -> F:
+def num_of(objs, a) -> Optional[F]:
     a = resolve(objs, a)
     if a[0] == "i":
         return F(int(a[1]))
     if a[0] == "r":
         return F(a[1])
-    raise SpecError("TypeError")
+    return None
 
 
 def spec_box(objs, v) -> Optional[Tuple[F, F, F, F]]:
-    """A box value: 4 numbers, given as any two opposite corners -> normalised; None when it is not a 4-array."""
+    """A box value: 4 numbers, given as any two opposite corners -> normalised; None when it is not an array of
+    4 numbers (the page then gets the default box)."""
     v = resolve(objs, v)
-    if v[0] != "a":
-        raise SpecError("TypeError")
-    if len(v[1]) != 4:
-        return None
-    x0, y0, x1, y1 = (num_of(objs, a) for a in v[1])
+    if v[0] != "a" or len(v[1]) != 4:
+        return None          # not a 4-array: the default applies
+    nums = [num_of(objs, a) for a in v[1]]
+    if any(x is None for x in nums):
+        return None          # a non-number: the default applies
+    x0, y0, x1, y1 = nums
     return (min(x0, x1), min(y0, y1), max(x0, x1), max(y0, y1))
 
 
@@ -763,7 +767,7 @@ def add_wild(rng, doc, ctx=None) -> None:
     for _ in range(rng.randint(1, 3)):
         kind = rng.choice(["catalog-attr", "rotate-type", "type-unknown", "type-missing", "no-kids", "dangling-kid",
                            "int-kid", "box-name", "box-null", "box-int", "no-pages", "orphans", "ref-chain",
-                           "null-attr"])
+                           "null-attr", "atom-kid", "ref-cycle", "pages-array"])
         if ctx is not None:
             ctx.branch("wild:" + kind)
         n = rng.choice(nodes) if nodes else None
@@ -806,6 +810,30 @@ def add_wild(rng, doc, ctx=None) -> None:
             v = {"box-name": ["a", [["i", 0], ["i", 0], ["n", "W"], ["i", 9]]],
                  "box-null": put(["null"]), "box-int": put(["i", 7])}[kind]
             pairs[:] = [p for p in pairs if p[0] != k] + [[k, v]]
+        elif kind == "atom-kid":
+            inner = [x for x in nodes_of(doc, "Pages") if kids_list(doc, x) is not None]
+            if inner:
+                ks = kids_list(doc, rng.choice(inner))
+                ks.insert(rng.randint(0, len(ks)), rng.choice([["n", "Page"], ["r", "5/2"], ["i", 0]])
+                          if rng.random() < 0.8 else put(["null"]))
+        elif kind == "ref-cycle" and n is not None:
+            a, b = free.pop(), free.pop()
+            if rng.random() < 0.5:
+                doc["objs"].append([a, ["R", a]])
+                objs[a] = ["R", a]
+            else:
+                doc["objs"] += [[a, ["R", b]], [b, ["R", a]]]
+                objs[a], objs[b] = ["R", b], ["R", a]
+            pairs = objs[n][1]
+            k = rng.choice(INH + ["Kids"])
+            if k == "Kids":
+                ks = kids_list(doc, n)
+                if ks is not None:
+                    ks.append(["R", a])
+            else:
+                pairs[:] = [p for p in pairs if p[0] != k] + [[k, ["R", a]]]
+        elif kind == "pages-array":
+            doc["catalog"][:] = [p for p in doc["catalog"] if p[0] != "Pages"] + [["Pages", ["a", [["R", doc["root"]]]]]]
         elif kind == "no-pages":
             doc["catalog"][:] = [p for p in doc["catalog"] if p[0] != "Pages"]
         elif kind == "orphans":
@@ -873,8 +901,8 @@ def doc_tags(doc, extra=None) -> Dict[str, Any]:
                 try:
                     vv = resolve(objs, v)
                     if vv[0] == "a" and len(vv[1]) == 4:
-                        x0, y0, x1, y1 = (num_of(objs, a) for a in vv[1])
-                        if x0 > x1 or y0 > y1:
+                        nums = [num_of(objs, a) for a in vv[1]]
+                        if None not in nums and (nums[0] > nums[2] or nums[1] > nums[3]):
                             unn = True
                 except SpecError:
                     pass
